@@ -106,6 +106,9 @@ type Sim struct {
 
 	MaxSteps   uint64
 	Exhausted  bool // the step / tape budget ran out
+	// Mute drops violations (used while a fault-injected phase runs whose
+	// verdict is judged afterwards by the recovery check instead).
+	Mute bool
 	Counters   map[string]int64
 	Violations []Violation
 	// StopOnViolation makes Run return as soon as a violation is recorded.
@@ -340,7 +343,7 @@ func (s *Sim) CountLocked(name string, d int64) { s.Counters[name] += d }
 
 func (s *Sim) Violate(class, detail string) {
 	s.mu.Lock()
-	if s.Exhausted {
+	if s.Exhausted || s.Mute {
 		// the run ran out of its step budget: whatever is observed afterwards
 		// is a consequence of stopping early, not of the code under test
 		s.mu.Unlock()
